@@ -365,6 +365,9 @@ impl Oracle {
   }
   pub fn ask(&mut self, line: &str) -> String {
     self.calls += 1;
+    if std::env::var("VERIF_TRACE").is_ok() {
+      eprintln!("ORACLE< {}", line.chars().take(400).collect::<String>());
+    }
     self.stdin.write_all(line.as_bytes()).unwrap();
     self.stdin.write_all(b"\n").unwrap();
     self.stdin.flush().unwrap();
